@@ -3,3 +3,4 @@ import AkVerif.Model.Util
 import AkVerif.Props.C17
 import AkVerif.Props.C14
 import AkVerif.Props.C11
+import AkVerif.Props.C12
